@@ -27,7 +27,7 @@ THRESHOLDS = {"quick": {
     "c03:datasets": 300, "c03:items": 2500, "c03:parallel-runs": 20, "c03:distinct-schedules?c03:schedule-probe-attached": 10, "c03:opt:allowed_start": 100,
     "c03:opt:allowed_end": 100, "c03:opt:deadend_start:nontrivial": 100, "c03:opt:deadend_end:nontrivial": 100,
     "c03:opt:endpoints_not_equal": 100, "c03:opt:deadend+allowed-same-endpoint:nontrivial": 30, "c03:opt:none": 500, "c03:equal-endpoints-allowed-and-seen": 5, "c03:empty-dataset": 5,
-    "c03:from_config": 30, "c03:shared-cache-requests": 12, "c03:shared-cache-requests:config-object-reused": 6, "c03:start-method-datasets": 4, "c03:huge-grid-datasets": 2, "c03:many-mazes": 20, "c03:large-grid": 15, "c03:worker-pids?c03:schedule-probe-attached": 30,
+    "c03:from_config": 30, "c03:shared-cache-requests": 12, "c03:derived-datasets-overwritten": 25, "c03:sweep-requests:refused": 8, "c03:sweep-requests:served": 20, "c03:shared-cache-requests:config-object-reused": 6, "c03:start-method-datasets": 4, "c03:huge-grid-datasets": 2, "c03:many-mazes": 20, "c03:large-grid": 15, "c03:worker-pids?c03:schedule-probe-attached": 30,
     "hits:_generate_maze_helper?c03:schedule-probe-attached": 1000,
 }}
 THRESHOLDS["thorough"] = {**THRESHOLDS["quick"], "c03:datasets": 4000, "c03:parallel-runs": 300, "c03:distinct-schedules?c03:schedule-probe-attached": 100}
@@ -263,12 +263,71 @@ def run(ctx):
         ctx.check(ds.cfg.n_mazes == n_mazes and ds.cfg.grid_n == g_n, "C03/dataset-config-disagrees", f"{ds.cfg.n_mazes}/{ds.cfg.grid_n}", case)
         for idx in range(len(ds)):
             check_item(ctx, ds[idx], g_n, opts, dict(case, index=idx))
+        if i % 4 == 1 and 1 <= len(ds) <= 40:
+            # datasets derived from this one (a deep copy, filter results) belong to whoever made them: their stored routes are
+            # overwritten in place (reversed / blanked), then every item of THIS dataset is judged again
+            import copy as _copy
+            try:
+                with warnings.catch_warnings():
+                    warnings.simplefilter("ignore")
+                    derived = [_copy.deepcopy(ds), ds.filter_by.path_length(min_length=0), ds.filter_by.truncate_count(max(1, len(ds) - 1)), ds[: len(ds)] if False else _copy.copy(ds)]
+                for dd in derived[:3]:
+                    for m2 in dd.mazes:
+                        sol2 = m2.solution
+                        if sol2.flags.writeable:
+                            sol2[...] = sol2[::-1].copy() if i % 8 == 1 else 0
+                ctx.tally("c03:derived-datasets-overwritten")
+                for idx in range(len(ds)):
+                    check_item(ctx, ds[idx], g_n, opts, dict(case, index=idx, after="a deep copy and two filter results of the dataset had their routes overwritten in place"))
+            except Exception as ex:  # noqa: BLE001
+                ctx.tally(f"c03:derived-datasets-step-failed:{type(ex).__name__}(not judged)")
         if i < 4:
             ctx.sample(dict(case=case, n_items=len(ds)))
     ctx.tally("c03:distinct-schedules", len(schedules))
     _shared_cache(ctx, MazeDataset, MazeDatasetConfig, GENERATORS_MAP)
+    _refused_then_valid(ctx, MazeDataset, MazeDatasetConfig, GENERATORS_MAP)
     _other_start_methods(ctx)
     _huge_grid(ctx, MazeDataset, MazeDatasetConfig, GENERATORS_MAP)
+
+
+def _refused_then_valid(ctx, MazeDataset, MazeDatasetConfig, GENERATORS_MAP):
+    """one configuration object swept over grid sizes in place, with endpoint options that some of the sizes cannot honour (the
+    request is then refused with the documented ValueError): every dataset that IS returned honours the options, and the refused
+    requests leave the configuration as it was"""
+    sweeps = [(dict(allowed_end=[(4, 4)]), [3, 4, 5, 6, 7]), (dict(allowed_start=[(5, 0)], endpoints_not_equal=True), [4, 5, 6, 3, 7]),
+              (dict(allowed_start=[(0, 0)], allowed_end=[(3, 3), (6, 6)]), [2, 3, 4, 7, 5]), (dict(allowed_end=[(2, 5), (5, 2)], deadend_start=True), [5, 3, 6, 4, 8])]
+    for si, (opts, sizes) in enumerate(sweeps):
+        for how in ("generate", "generate-parallel", "from_config"):
+            if not ctx.mine(si * 3 + ("generate", "generate-parallel", "from_config").index(how)):
+                continue
+            with warnings.catch_warnings():
+                warnings.simplefilter("ignore")
+                cfg = MazeDatasetConfig(name=f"c03-sweep-{si}", grid_n=sizes[0], n_mazes=6, maze_ctor=GENERATORS_MAP["gen_dfs"], seed=40 + si,
+                                        endpoint_kwargs={k: (list(v) if isinstance(v, list) else v) for k, v in opts.items()})
+                want = repr(cfg.endpoint_kwargs)
+                for g_n in sizes:
+                    cfg.grid_n = g_n
+                    case = dict(kind="refused-then-valid", how=how, opts=opts, sizes=sizes, grid_n=g_n)
+                    try:
+                        if how == "generate":
+                            ds = MazeDataset.generate(cfg, gen_parallel=False)
+                        elif how == "generate-parallel":
+                            ds = MazeDataset.generate(cfg, gen_parallel=True, pool_kwargs=dict(processes=2))
+                        else:
+                            ds = MazeDataset.from_config(cfg, load_local=False, save_local=False, do_download=False)
+                        refused = False
+                    except ValueError:
+                        refused, ds = True, None
+                    except Exception as ex:  # noqa: BLE001
+                        ctx.tally(f"c03:sweep-request-failed:{type(ex).__name__}(not judged)")
+                        continue
+                    ctx.ev(); ctx.tally("c03:sweep-requests"); ctx.tally("c03:sweep-requests:refused" if refused else "c03:sweep-requests:served")
+                    ctx.check(repr(cfg.endpoint_kwargs) == want, "C03/request-changed-the-endpoint-options-of-the-config",
+                              f"endpoint options now {cfg.endpoint_kwargs!r}, were {want} ({'refused' if refused else 'served'} request on {g_n}x{g_n})", case)
+                    if ds is not None:
+                        ctx.check(len(ds) == 6, "C03/wrong-number-of-mazes", f"len={len(ds)} configured 6", case)
+                        for idx in range(len(ds)):
+                            check_item(ctx, ds[idx], g_n, opts, dict(case, index=idx))
 
 
 def _other_start_methods(ctx):
